@@ -459,6 +459,16 @@ def run(chk, db, tier):
     from . import c04_panics
     chk.rule("R5", "explicit panic constructs reachable from S3Service::call are each discharged by a local proof rule or listed in the reviewed table oracles/panic_sites.json")
     chk.guard("R5", c04_panics.rule_r5, db, tier)
+    # prerequisite for "a well-formed error document": an ordinary error starts with the XML declaration, the late error of the keep-alive
+    # response (whose declaration was already sent) does not repeat it (decided for C03)
+    from ..report import Sub
+    sub = Sub(chk, "C03", only=lambda k: k.startswith("error-decl") or k.startswith("late-error"))
+    sub.rule("R4", "error documents: declaration exactly once (ordinary errors with it, the keep-alive response's late error without)")
+    def _c03_r4(c, db_):
+        from . import c03
+        from .c01 import operation_impls
+        return c03.rule_r4(c, db_, model, operation_impls(db_))
+    sub.guard("R4", _c03_r4, db)
 
 
 META = {
